@@ -278,12 +278,22 @@ def h_solve_streett_game(ctx):
                 for j in range(J)]
         return ghostM[key]
 
+    def _havoc_iterates(w_, L):
+        # after at least one round the lists hold one entry per goal
+        if L['zold'] is not None:
+            L['yij'][:] = [[w_.pred('yh!%d' % j, w_.STATE)] for j in range(J)]
+            L['xijk'][:] = [[[w_.pred('xh!%d_%d' % (j, k), w_.STATE) for k in range(K)]]
+                            for j in range(J)]
+
     def inv(L):
         z, zold = L['z'], L['zold']
         tz = w.term(z)
         out = [('typing', _syntactic(w, z, zold)),
                ('Q_below_z', spec.subset(w, Qz, tz))]
         if zold is not None:
+            out.append(('iterates_shape', z3.BoolVal(
+                len(L['yij']) == len(L['xijk']) == J
+                and all(len(a) == len(b) >= 1 for a, b in zip(L['yij'], L['xijk'])))))
             tzo = w.term(zold)
             if state['ys'] and state['zprev'] is not None and z3.eq(
                     state['zprev'], tzo):
@@ -303,6 +313,7 @@ def h_solve_streett_game(ctx):
                   goal=lambda w_, L: None, y=lambda w_, L: None,
                   yj=lambda w_, L: None, xjk=lambda w_, L: None,
                   xijk=lambda w_, L: list(), yij=lambda w_, L: list()),
+        mutated=dict(iterates=_havoc_iterates),
         inv=inv)}
     before = snapshot(aut)
     if w.symbolic:
@@ -315,6 +326,9 @@ def h_solve_streett_game(ctx):
         f = gr1.solve_streett_game
     z, yij, xijk = ctx.call(f, aut, label='solve_streett_game')
     tz = w.term(z)
+    w.oblige('solve_streett_game.post: one list of attractor iterates and one list of trap layers per recurrence predicate, of equal positive lengths',
+             z3.BoolVal(len(yij) == len(xijk) == J and all(
+                 len(a) == len(b) >= 1 for a, b in zip(yij, xijk))))
     if w.symbolic:
         # on this path the loop exited: z == zold.  N_j := LFP_j(z).
         # congruence with M_j = LFP_j(zold) is a true fact (same operator,
@@ -339,6 +353,10 @@ def h_solve_streett_game(ctx):
         want = g.streett([w.tt(h, st) for h in holds],
                          [w.tt(gl, st) for gl in goals])
         got = w.tt(z, st)
+        from contracts import iterates
+        iterates.streett(w, g, [w.tt(h, st) for h in holds],
+                         [w.tt(gl, st) for gl in goals], z, yij, xijk,
+                         lambda u: w.tt(u, st))
         if got != want:
             w.fail('solve_streett_game.post: z == nu Z. /\\_j mu Y. \\/_k nu X. ...',
                    f'explicit-state value differs at {sorted(got ^ want)[:4]} '
